@@ -245,11 +245,13 @@ def SrvStream.setSend (reg : List String) (ss : SrvStream) (name : String) : Srv
   | some e => (ss, e)
   | none => if ss.headerSent then (ss, .late) else ({ ss with sendCompress := name }, .ok)
 
-/-- `serverStream.SendMsg`: re-resolve the registered compressor if the handler changed the name
-    (the legacy compressorV0 is NOT cleared), prepareMsg, write (headers go out with the first message) -/
+/-- `serverStream.SendMsg`: if the handler changed the name (SetSendCompressor), drop the legacy
+    compressorV0 (since /repo 25f0536; before that it was kept, defect F34) and re-resolve the
+    registered compressor; prepareMsg; write (headers go out with the first message) -/
 def SrvStream.send (k : Codec) (reg : List String) (ss : SrvStream) (d : Bytes) : SrvStream × Frame :=
   let ss1 := if ss.sendCompress ≠ ss.sendName then
-      { ss with compV1 := if reg.contains ss.sendCompress then some ss.sendCompress else none,
+      { ss with compV0 := none,
+                compV1 := if reg.contains ss.sendCompress then some ss.sendCompress else none,
                 sendName := ss.sendCompress }
     else ss
   ({ ss1 with headerSent := true }, prepareMsg k ss1.compV0 ss1.compV1 d)
